@@ -36,7 +36,10 @@ class C09(Prop):
         tree = st.one_of(deep, gens.shaped_documents(leaves, keys, max_leaves=10, min_leaves=2),
                          gens.shaped_documents(leaves, keys, max_leaves=4),
                          leaves,
-                         st.lists(leaves, min_size=20, max_size=60).map(lambda l: ["A", l]))
+                         st.lists(leaves, min_size=20, max_size=60).map(lambda l: ["A", l]),
+                         # containers whose elements print as nothing at all (empty raw items): the text is shorter than the element count
+                         st.tuples(st.integers(2, 16), st.booleans(), st.sampled_from([["R", b""], ["S", b""], ["A", []]])).map(
+                             lambda t: ["A", [t[2]] * t[0]] if t[1] else ["O", [[b"%d" % i, t[2]] for i in range(t[0])]]))
         return st.fixed_dictionaries({"jv": tree, "root": st.sampled_from(printing.ROOT_VARIANTS), "rseed": st.integers(0, 2 ** 31)})
 
     def run_case(self, lib, case, stats):
